@@ -388,7 +388,16 @@ let dump_doc (idx : Stdlib.String.t) (flags : Stdlib.String.t) (text : n list) (
     (* HashSet of all nodes of both documents (one of them twice): distinct keys by node_eqb *)
     let keys = List.init n (fun k -> (n_of_int 1, n_of_int k)) @ List.init n (fun k -> (n_of_int 2, n_of_int k)) @ List.init n (fun k -> (n_of_int 1, n_of_int k)) in
     let distinct = List.fold_left (fun acc k -> if List.exists (fun x -> node_eqb x k) acc then acc else k :: acc) [] keys in
-    pr "%s OH %d 1\n" idx (List.length distinct)
+    pr "%s OH %d 1\n" idx (List.length distinct);
+    (* nodes reached through descendants().nth(k) and the following next() calls: in the model an
+       item of the slice iterator IS the id, so every one of them round-trips *)
+    let cnt = ref 0 in
+    for k = 0 to 2 do
+      let it = get (descendants d (n_of_int 0)) in
+      let (o, it') = sit_nth (n_of_int k) it in
+      (match o with Some _ -> cnt := !cnt + int_of_n (sit_len it') | None -> ())
+    done;
+    pr "%s OI %d\n" idx !cnt
   end;
   if has 'g' then pr "%s G ok\n" idx
 
